@@ -1,6 +1,24 @@
 import re
 
 
+_re_fortran_exp = re.compile(r'^([-+]?(?:[0-9]+\.?[0-9]*|\.[0-9]+))([-+][0-9]+)$')
+
+
+def mcnp_float(token):
+    """
+    Convert a number in any of the spellings accepted by MCNP (Fortran
+    conventions) to a float: 1.5e-3, 1.5E-3, 1.5d-3, 1.5D-3 and 1.5-3 all
+    denote the same number.
+    """
+    if not isinstance(token, str):
+        return float(token)
+    token = token.strip().lower().replace('d', 'e')
+    match = _re_fortran_exp.match(token)
+    if match:
+        token = match.group(1) + 'e' + match.group(2)
+    return float(token)
+
+
 def shorten(s, N=80):
     """
     Return short representation of string s.
